@@ -252,6 +252,19 @@ func C17(ctx *Ctx) {
 			R.Fail("shape", "MulDiv:pack", pos, "MulDiv does not pack its result with ToColor15(r,g,b)")
 			continue
 		}
+		// ... and what it returns is that packed colour on every path (not, say, the unmasked argument on a shortcut)
+		{
+			saved := ip.Hooks.OverrideCall
+			ip.Hooks.OverrideCall = nil
+			packed, pout := ip.Call(toC15, packArgs, nil, newState())
+			ip.Hooks.OverrideCall = saved
+			pv, _ := packed.(*absint.Int)
+			rv, _ := res.(*absint.Int)
+			if pout == nil || pv == nil || rv == nil || pv.Lin.Key() != rv.Lin.Key() {
+				R.Fail("shape", "MulDiv:result", pos, fmt.Sprintf("MulDiv returns %s, which is not the packed colour %s on every path", trunc(fmtVal(res)), trunc(fmtVal(packed))))
+				continue
+			}
+		}
 		if nBad > 0 {
 			// term keys identify values only modulo their width; with a lossy narrowing the comparison below would be meaningless
 			R.Fail("shape", "MulDiv:undecided", pos, "the per-channel term cannot be decided while a narrowing in MulDiv may lose bits")
